@@ -1491,12 +1491,13 @@ class SpaceManager(SharedSpaceOperations):
 
     def new_ref(self, space, name, value, refmode):
 
-        other = self._find_name_in_subs(space, name)
-        if other is not None:
-            if not isinstance(other, ReferenceImpl):
-                raise ValueError("Cannot create reference '%s'" % name)
-            elif other not in self.model.global_refs.values():
-                raise ValueError("Cannot create reference '%s'" % name)
+        for subspace in self._get_subs(space, skip_self=False):
+            if name in subspace.namespace:
+                other = subspace._namespace.fresh[name]
+                if not isinstance(other, ReferenceImpl):
+                    raise ValueError("Cannot create reference '%s'" % name)
+                elif other not in self.model.global_refs.values():
+                    raise ValueError("Cannot create reference '%s'" % name)
 
         self._check_subs_relrefs(space, name, value, refmode)
         result = space.on_create_ref(name, value, is_derived=False,
